@@ -152,14 +152,17 @@ macro_rules! pa {
     };
 }
 
-/// Pseudo-random inputs for the native self-test of oracles (never part of a decision)
+/// Pseudo-random inputs for the native self-test of oracles and for the native search of a concrete witness
+/// AFTER the solver has reported a failed check (never part of a decision). Every draw is logged in the byte
+/// format of Kani's concrete playback, so that a failing run can be written out as a replay file.
 pub struct RandomNondet {
     pub state: u64,
+    pub log: std::sync::Arc<std::sync::Mutex<Vec<Vec<u8>>>>,
 }
 
 impl RandomNondet {
     pub fn new(seed: u64) -> Self {
-        RandomNondet { state: seed.wrapping_mul(0x9E3779B97F4A7C15) | 1 }
+        RandomNondet { state: seed.wrapping_mul(0x9E3779B97F4A7C15) | 1, log: Default::default() }
     }
     fn next(&mut self) -> u64 {
         // xorshift64*
@@ -170,41 +173,71 @@ impl RandomNondet {
         self.state = x;
         x.wrapping_mul(0x2545F4914F6CDD1D)
     }
+    fn rec(&mut self, bytes: &[u8]) {
+        if let Ok(mut l) = self.log.lock() {
+            l.push(bytes.to_vec());
+        }
+    }
 }
 
 impl Nondet for RandomNondet {
     fn u8(&mut self) -> u8 {
         // small values most of the time so that `below(n)` assumptions hold often
         let r = self.next();
-        if r & 3 != 0 { ((r >> 8) % 4) as u8 } else { (r >> 16) as u8 }
+        let v = if r & 3 != 0 { ((r >> 8) % 4) as u8 } else { (r >> 16) as u8 };
+        self.rec(&[v]);
+        v
     }
     fn u16(&mut self) -> u16 {
-        self.next() as u16
+        let v = self.next() as u16;
+        self.rec(&v.to_le_bytes());
+        v
     }
     fn u32(&mut self) -> u32 {
-        self.next() as u32
+        let v = self.next() as u32;
+        self.rec(&v.to_le_bytes());
+        v
     }
     fn u64(&mut self) -> u64 {
-        self.next()
+        let r = self.next();
+        // small values often (symbols, indices that have to hit something)
+        let v = if r & 1 == 0 { (r >> 8) % 32 } else { r };
+        self.rec(&v.to_le_bytes());
+        v
     }
     fn i32(&mut self) -> i32 {
         let r = self.next();
-        match r & 7 {
+        let v = match r & 7 {
             0 => i32::MIN,
             1 => i32::MAX,
             2 | 3 | 4 => ((r >> 8) % 9) as i32 - 4,
             5 => 31 + ((r >> 8) & 1) as i32,
             _ => (r >> 16) as i32,
-        }
+        };
+        self.rec(&v.to_le_bytes());
+        v
     }
     fn f64(&mut self) -> f64 {
-        ((self.next() >> 11) as f64) / 1024.0 - 1000.0
+        let r = self.next();
+        let v = match r & 7 {
+            0 => f64::NAN,
+            1 => ((r >> 8) % 9) as f64 - 4.0,
+            2 => (((r >> 8) % 9) as f64 - 4.0) / 2.0,
+            3 => [f64::INFINITY, f64::NEG_INFINITY, 0.0, -0.0, 2147483648.0, -2147483649.0, 1e300, -1e300][((r >> 8) & 7) as usize],
+            _ => ((r >> 11) as f64) / 1024.0 - 1000.0,
+        };
+        self.rec(&v.to_le_bytes());
+        v
     }
     fn bool(&mut self) -> bool {
-        self.next() & 1 == 1
+        let v = self.next() & 1 == 1;
+        self.rec(&[v as u8]);
+        v
     }
     fn usize(&mut self) -> usize {
-        (self.next() % 8) as usize
+        let v = (self.next() % 8) as usize;
+        self.rec(&v.to_le_bytes());
+        v
     }
     fn assume(&mut self, cond: bool) {
         if !cond {
